@@ -1107,8 +1107,12 @@ mod harnesses {
     // C. name tables
     // ==========================================================================================
 
-    /// Maximum identifier length of the table harnesses.
+    /// Maximum identifier length of `table_as_op_or_id` (6: ~2.5 min; the two longer keywords
+    /// `forward`, `continue` are checked concretely in `table_long_names`).
     pub const ID_MAX: usize = 6;
+    /// Maximum identifier length of `table_concrete_to_python`: the longest table entry,
+    /// "Collection".
+    pub const PY_ID_MAX: usize = 10;
 
     fn ident_byte(b: u8) -> bool {
         (b >= b'a' && b <= b'z') || (b >= b'A' && b <= b'Z') || (b >= b'0' && b <= b'9') || b == b'_'
@@ -1163,10 +1167,10 @@ mod harnesses {
     }
 
     #[kani::proof]
-    #[kani::unwind(8)]
+    #[kani::unwind(12)]
     fn table_concrete_to_python() {
-        let mut bytes = [0u8; ID_MAX];
-        let s = any_ident::<ID_MAX>(&mut bytes);
+        let mut bytes = [0u8; PY_ID_MAX];
+        let s = any_ident::<PY_ID_MAX>(&mut bytes);
         let r = concrete_to_python(s);
         match expected_python_name(s) {
             Some(py) => {
@@ -1185,7 +1189,8 @@ mod harnesses {
         kani::cover!(s.as_bytes() == b"Int", "cover: Int");
         kani::cover!(s.as_bytes() == b"Float", "cover: Float");
         kani::cover!(s.as_bytes() == b"Tuple", "cover: Tuple");
-        kani::cover!(s.len() == ID_MAX, "cover: longest identifier");
+        kani::cover!(s.as_bytes() == b"Collection", "cover: Collection");
+        kani::cover!(s.len() == PY_ID_MAX, "cover: longest identifier");
         kani::cover!(s.len() == 0, "cover: empty");
         forget(r);
     }
@@ -1280,5 +1285,26 @@ mod harnesses {
         kani::cover!(got == K::As, "cover: as");
         kani::cover!(s.len() == 0, "cover: empty");
         forget(tok);
+    }
+
+    /// The table entries longer than ID_MAX, concretely (keywords `forward`, `continue`).
+    #[kani::proof]
+    #[kani::unwind(10)]
+    fn table_long_names() {
+        let t = verif_as_op_or_id(String::from("forward"));
+        assert!(kind_of(&t) == K::Forward, "as_op_or_id: forward");
+        assert!(expected_keyword("forward") == Some((K::Forward, 7)), "table: forward, width 7");
+        forget(t);
+        let t = verif_as_op_or_id(String::from("continue"));
+        assert!(kind_of(&t) == K::Continue, "as_op_or_id: continue");
+        assert!(expected_keyword("continue") == Some((K::Continue, 8)), "table: continue, width 8");
+        forget(t);
+        // one character more or less is an identifier again
+        let t = verif_as_op_or_id(String::from("forwards"));
+        assert!(kind_of(&t) == K::Id, "as_op_or_id: forwards is an identifier");
+        forget(t);
+        let t = verif_as_op_or_id(String::from("continu"));
+        assert!(kind_of(&t) == K::Id, "as_op_or_id: continu is an identifier");
+        forget(t);
     }
 }
